@@ -193,9 +193,22 @@ func c06Register() {
 		return
 	}
 	c06Registered = true
-	for _, n := range []string{"k1", "k2", "k3"} {
-		module.RegisterInstance(&c06Check{n}, nil)
+	var grp []module.Check
+	for _, n := range []string{"k1", "k2", "k3", "k4", "k5"} {
+		c := &c06Check{n}
+		module.RegisterInstance(c, nil)
+		if n <= "k3" {
+			grp = append(grp, c)
+		}
 	}
+	// a named group of checks ('checks grp3 { k1 k2 k3 }'), as the real Init builds it
+	// (appended one by one: length 3, capacity 4)
+	cg := &CheckGroup{instName: "grp3"}
+	for _, c := range grp {
+		cg.L = append(cg.L, c)
+	}
+	module.RegisterInstance(cg, nil)
+	module.Initialized["grp3"] = true
 	for _, n := range []string{"uA", "uB", "uC"} {
 		module.RegisterInstance(&c06Target{n}, nil)
 	}
@@ -208,6 +221,18 @@ type c06Placement struct {
 	DMARC      string // "", "quarantine", "reject"
 	// NullSender: the envelope sender is the null reverse-path (a bounce)
 	NullSender bool `json:",omitempty"`
+	// GroupIn: blocks ("G","S","A","B") whose first check directive references the
+	// named group grp3 = {k1,k2,k3}; the block's own checks follow in a second directive
+	GroupIn []string `json:",omitempty"`
+}
+
+func (p c06Placement) group(b string) []config.Node {
+	for _, x := range p.GroupIn {
+		if x == b {
+			return []config.Node{{Name: "check", Args: []string{"&grp3"}}}
+		}
+	}
+	return nil
 }
 
 func (p c06Placement) sender() string {
@@ -227,6 +252,7 @@ func c06CheckNode(names []string) config.Node {
 
 func (p c06Placement) nodes() []config.Node {
 	var ns []config.Node
+	ns = append(ns, p.group("G")...)
 	if len(p.G) > 0 {
 		ns = append(ns, c06CheckNode(p.G))
 	}
@@ -234,11 +260,18 @@ func (p c06Placement) nodes() []config.Node {
 		ns = append(ns, config.Node{Name: "dmarc", Args: []string{"yes"}})
 	}
 	var src []config.Node
+	src = append(src, p.group("S")...)
 	if len(p.S) > 0 {
 		src = append(src, c06CheckNode(p.S))
 	}
 	blk := func(checks []string, tgt string) []config.Node {
 		var b []config.Node
+		switch tgt {
+		case "uA":
+			b = append(b, p.group("A")...)
+		case "uB":
+			b = append(b, p.group("B")...)
+		}
 		if len(checks) > 0 {
 			b = append(b, c06CheckNode(checks))
 		}
@@ -271,6 +304,11 @@ func (p c06Placement) scopes() map[string][]string {
 	}
 	for _, c := range p.B {
 		m[c] = append(m[c], "B")
+	}
+	for _, b := range p.GroupIn {
+		for _, c := range []string{"k1", "k2", "k3"} {
+			m[c] = append(m[c], b)
+		}
 	}
 	return m
 }
@@ -667,7 +705,7 @@ func TestVerifC06(t *testing.T) {
 	r := vx.Start("C06", "checks")
 	defer r.Finish()
 	c06Register()
-	r.Rule("placements of 1-3 scripted checks over global / source / two destination blocks (including the same check referenced in two places) x verdict assignments per stage (none, ignore-with-reason, quarantine, reject; at most V non-none) x envelopes of 1-2 recipients routed to different blocks, with an ordinary and with the null envelope sender, x atomic and per-recipient body paths (+ DMARC quarantine/reject policy), each on a real pipeline built by msgpipeline.New; check_runner.go/msgpipeline.go scheduler-rewritten: every completion order of the parallel check goroutines and every map iteration order, up to F deviations from the default order; oracle: verdict fold (reject refuses the command, nothing delivered; quarantine flags every target at body time; ignore changes nothing) and call log (each state sees conn/sender/recipient/body at most once, and at least once for every accepted command in scope). Non-trivial: distinct schedules with a non-default order")
+	r.Rule("placements of 1-3 scripted checks over global / source / two destination blocks (including the same check referenced in two places, and a named group of three checks referenced in two blocks next to each block's own check) x verdict assignments per stage (none, ignore-with-reason, quarantine, reject; at most V non-none) x envelopes of 1-2 recipients routed to different blocks, with an ordinary and with the null envelope sender, x atomic and per-recipient body paths (+ DMARC quarantine/reject policy), each on a real pipeline built by msgpipeline.New; check_runner.go/msgpipeline.go scheduler-rewritten: every completion order of the parallel check goroutines and every map iteration order, up to F deviations from the default order; oracle: verdict fold (reject refuses the command, nothing delivered; quarantine flags every target at body time; ignore changes nothing) and call log (each state sees conn/sender/recipient/body at most once, and at least once for every accepted command in scope). Non-trivial: distinct schedules with a non-default order")
 	r.Assume("a quarantine verdict delivered in the same batch as a reject, or for a refused command, may or may not flag the message (the statement does not decide)")
 	V, F := 2, 3
 	if vx.Thorough() {
@@ -742,6 +780,34 @@ func TestVerifC06(t *testing.T) {
 				}
 				for _, na := range []bool{false, true} {
 					scs = append(scs, c06Scenario(c06Case{Placement: p, Verdicts: a, Rcpts: env, NonAtomic: na}, F))
+				}
+			}
+		}
+	}
+	// a named group of three checks referenced in two blocks, each followed by the block's own check
+	// (single verdicts, one deviation from the default completion order)
+	for _, p := range []c06Placement{
+		{Name: "grp-A+k4-B+k5", GroupIn: []string{"A", "B"}, A: []string{"k4"}, B: []string{"k5"}},
+		{Name: "grp-G+k4-A+k5", GroupIn: []string{"G", "A"}, G: []string{"k4"}, A: []string{"k5"}},
+		{Name: "grp-S+k4-B+k5", GroupIn: []string{"S", "B"}, S: []string{"k4"}, B: []string{"k5"}},
+	} {
+		var checks []string
+		for ch := range p.scopes() {
+			checks = append(checks, ch)
+		}
+		sort.Strings(checks)
+		assigns := []map[string]int{{}}
+		for _, ch := range checks {
+			for _, st := range stages {
+				for v := vIgnore; v <= vReject; v++ {
+					assigns = append(assigns, map[string]int{ch + "/" + st: v})
+				}
+			}
+		}
+		for _, a := range assigns {
+			for _, env := range envs[:2] {
+				for _, na := range []bool{false, true} {
+					scs = append(scs, c06Scenario(c06Case{Placement: p, Verdicts: a, Rcpts: env, NonAtomic: na}, 1))
 				}
 			}
 		}
